@@ -1,5 +1,7 @@
 import PegVerif.Proofs.RefineTop
 import PegVerif.Proofs.SemLemmas
+import PegVerif.Proofs.LinkLemmas
+import PegVerif.Proofs.AlwaysLemmas
 /-
   C01 — the generated parser recognises exactly the grammar's PEG language.
 
@@ -75,6 +77,27 @@ theorem C01_parseF (hW : World P cfg env G inp) {n cr res evs fuel pr st}
     | .fail => pr = .fail (evs.foldl updTok zeroTok) :=
   R_parseF hW hfind hev hrun hfuel
 
+/-- **C01 for the generator itself** (default options without `-inline`/`-switch`, memoisation
+    disabled): for every linked grammar that passes the decidable check `GrammarOK` (terminals below the
+    end symbol, no reference from an emitted rule to a rule without function) and is `plain` (no
+    `-switch`/`-inline` nodes), every input of valid runes, and every rule with an emitted function:
+    each run of the function the MODEL GENERATOR emits returns true exactly when the PEG semantics
+    matches a prefix, and stops at the end of exactly that prefix.  `World` is discharged here
+    (`compileAll_world`, `alwaysSucceeds_sound`); the T-emit tie says the real generator emits this
+    very program. -/
+theorem C01_generated_parser (G : Grammar) (o : Opts) (cfg : Cfg) (inp : List Sym)
+    (hinl : o.inline = false) (hsw : o.switch = false) (hast : o.ast = true)
+    (hcfg : cfg.ast = true) (hmemo : cfg.memo = false)
+    (hinp : ∀ c ∈ inp, c ≠ END) (hG : GrammarOK G = true) (hplain : G.plain)
+    {n cr res evs out s'} (hfind : (compileAll o G).find n = some cr)
+    (hev : Eval G cfg.rho inp (.name n) 0 res evs)
+    (hrun : Exec (compileAll o G) cfg inp cr 0 St.init Frame.empty (out, s')) :
+    (out = .ret true ↔ ∃ p' f, res = .ok p' f) ∧ (∀ p' f, res = .ok p' f → s'.pos = p') ∧
+    (out = .ret false ↔ res = .fail) ∧ out ≠ .panic :=
+  C01_refines
+    (compileAll_world hsw hinl hast hcfg hmemo hinp hG (fun _ h => alwaysSucceeds_sound hplain h))
+    hfind hev hrun
+
 /-! Non-vacuity: a grammar using sequence, choice, `*`, `!`, rule reference and a capture has
     derivations, found by the interpreter and certified by `C01_oracle_sound`. -/
 def exG : Grammar := { rules := [
@@ -87,6 +110,12 @@ example : ∃ f evs, Eval exG (fun _ _ => true) [97, 98, 97] (.name "S") 0 (.ok 
 example : ∃ evs, Eval exG (fun _ _ => true) [97, 99] (.name "S") 0 .fail evs :=
   ⟨_, evalF_sound 20 _ _ _ _ (by rfl)⟩
 
+/-- The hypotheses of `C01_generated_parser` are satisfiable: the example grammar passes both checks
+    and both of its rules get a function. -/
+example : GrammarOK exG = true ∧ exG.plain ∧ ((compileAll {} exG).find "S").isSome = true ∧
+    ((compileAll {} exG).find "A").isSome = true :=
+  ⟨by decide, Grammar.plain_of_all (by decide), by decide, by decide⟩
+
 end PegVerif
 
 #print axioms PegVerif.C01_semantics_deterministic
@@ -95,3 +124,4 @@ end PegVerif
 #print axioms PegVerif.C01_refines_anywhere
 #print axioms PegVerif.C01_run_exists
 #print axioms PegVerif.C01_parseF
+#print axioms PegVerif.C01_generated_parser
